@@ -41,3 +41,34 @@ func ResolveUDPAddr(network, address string) (*UDPAddr, error) {
 	}
 	return &UDPAddr{IP: arbitraryIP(), Port: int(vf.Uint16("resolve.port"))}, nil
 }
+
+type (
+	IPNet  = net.IPNet
+	IPAddr = net.IPAddr
+	Flags  = net.Flags
+)
+
+const (
+	FlagUp        = net.FlagUp
+	FlagMulticast = net.FlagMulticast
+)
+
+var (
+	IPv4zero = net.IP{0, 0, 0, 0}
+	IPv6zero = net.IP{0, 0, 0, 0, 0, 0, 0, 0, 0, 0, 0, 0, 0, 0, 0, 0}
+)
+
+// InterfaceByName: interface enumeration is host state (DESIGN §3): an arbitrary outcome.
+func InterfaceByName(name string) (*Interface, error) {
+	if vf.Bool("ifbyname.fail") {
+		return nil, errResolve
+	}
+	fl := net.Flags(0)
+	if vf.Bool("if.up") {
+		fl |= net.FlagUp
+	}
+	if vf.Bool("if.multicast") {
+		fl |= net.FlagMulticast
+	}
+	return &Interface{Index: 1 + int(vf.Uint8("if.index")), Name: name, Flags: fl}, nil
+}
